@@ -190,8 +190,8 @@ class G:
     def hist_step(self, x, keys):
         r = self.r
         op = r.choices(["add", "cadd", "addint", "addmany", "rem", "crem", "addr", "remr", "flip", "clear", "opt",
-                        "cloneswap", "detach", "setcow", "query", "walk4096", "fillempty", "emptyedge"],
-                       [10, 8, 2, 4, 8, 8, 8, 8, 8, 0.3, 2, 1, 1, 1, 6, 2.5, 1, 2.5])[0]
+                        "cloneswap", "detach", "setcow", "query", "walk4096", "fillempty", "emptyedge", "trimruns"],
+                       [10, 8, 2, 4, 8, 8, 8, 8, 8, 0.3, 2, 1, 1, 1, 6, 2.5, 1, 2.5, 1.2])[0]
         self.count("histop:" + op)
         if op in ("add", "cadd", "addint", "rem", "crem"):
             self.emit("%s %s %d" % (op, x, self.val_near(keys)))
@@ -286,6 +286,26 @@ class G:
             self.emit("card %s" % x)
             self.emit("empty %s" % x)
             self.count("emptyedge:%s:%s" % (side, mut))
+        elif op == "trimruns":
+            # a run chunk (>= 3 runs) whose runs are trimmed one value at a time from their ends, never re-optimised:
+            # the chunk must stop being a run container when runs no longer pay (size bound, Validate)
+            k = r.choice(list(keys)) if keys else 0
+            base = k * CH
+            self.emit("remr %s %d %d" % (x, base, base + CH))
+            nr = r.choice([3, 5, 40])
+            ln = r.choice([4, 10])
+            starts = [100 + i * (ln + r.choice([3, 7])) for i in range(nr)]
+            for st_ in starts:
+                self.emit("addr %s %d %d" % (x, base + st_, base + st_ + ln))
+            self.emit("opt %s" % x)
+            for step in range(ln - 1):
+                for st_ in starts:
+                    v = base + st_ + (step // 2 if step % 2 == 0 else ln - 1 - step // 2)
+                    self.emit("%s %s %d" % (r.choice(["rem", "crem"]), x, v))
+                if step in (ln // 2, ln - 2):
+                    self.emit("size %s" % x)
+                    self.emit("wf %s" % x)
+            self.count("trimruns")
         elif op == "fillempty":
             k = r.choice(list(keys)) if keys else 0
             base = k * CH
